@@ -26,10 +26,11 @@ REQUIRED = ['keeps_direct_seats', 'house_grows_by_adj', 'house_grows_by_adj_of_f
             'level_least_enlargement_ha', 'level_least_enlargement_lr', 'multistage_final_is_proportional',
             'level_terminates_lr', 'level_final_is_proportional_lr', 'level_terminates_of_adequate',
             'level_cty_final_party_totals', 'partyVotes_ok']
-NAME_MODES = ['str', 'int0', 'empty0']
+NAME_MODES = ['str', 'int0', 'empty0', 'person']
 REQUIRED_COUNTERS = ['overhang_present', 'no_overhang', 'party_outside_tier', 'party_without_votes',
                      'levelling_iterations_ge2', 'by_constituency', 'multistage_wrapped',
-                     'allow', 'level', 'd_hondt', 'sainte_lague', 'hare_lr', 'tie_in_baseline', 'multistage_depth2', 'default_overall', 'apportioned', 'intermediate_tie', 'alabama_lr']
+                     'allow', 'level', 'd_hondt', 'sainte_lague', 'hare_lr', 'tie_in_baseline', 'multistage_depth2', 'default_overall', 'apportioned', 'intermediate_tie', 'alabama_lr', 'cty_party_name_clash', 'clash_str', 'clash_int0',
+                     'clash_empty0', 'all_zero_votes']
 RULE = ('second-vote dicts over 2-6 parties (tie-forcing small sets, zero-vote parties, up to 10^12, some Fractions); '
         'baseline house sizes 1..30; direct-seat maps with sum <= house size (none, below the share, skewed above it, '
         'random; parties with direct seats but no proportional seat; parties without a votes entry); proportional '
@@ -38,7 +39,10 @@ RULE = ('second-vote dicts over 2-6 parties (tie-forcing small sets, zero-vote p
         '0..8 or an apportioning evaluator; overall evaluator given or the default), alone (overhang_calc) and inside AdjustedSeatCount (adjusted_eval; distributing '
         'evaluator = the same or another of the three, ByParty(overall, allocator) for the by-constituency variant), bare '
         'or as second stage of MultistageDistributor([direct-seat stage, AdjustedSeatCount]) with depth 1 / 2; levelling '
-        'bounded by 200 evaluator calls on both sides. Thorough tier adds all vote vectors {0..3}^2 (n<=5) and {0..2}^3 '
+        'bounded by 200 evaluator calls on both sides. Naming: a quarter of all cases under the falsy-name modes int0 / empty0; '
+        'about a third of the by-constituency cases with a constituency that is the same object as a party (constituencies '
+        "named 'p0','p1',…; int ids for both; '' for both). A few all-zero vote dicts."
+        ' Thorough tier adds all vote vectors {0..3}^2 (n<=5) and {0..2}^3 '
         '(n<=3) x all direct maps (entries <= 2, one party without votes) x 3 evaluators x {allow, level}. Non-trivial = a '
         'non-error result with at least one direct seat; distinct by canonical request.')
 NOT_VERIFIED = [
@@ -126,12 +130,23 @@ def _seats(pairs):
     return {NAMES.n(i): k for i, k in pairs}
 
 
+def _cn(case, c):
+    """constituency object of id c.  `_cnames` = 'p': constituencies are named like the parties ('p0', 'p1', …), i.e.
+    constituency i and party i are the same object (under the naming modes int0 / empty0 of common.Names this already
+    holds for all ids / for id 0, whatever `_cnames` says)"""
+    return NAMES.n(c) if case.get('_cnames') == 'p' else CNAMES.n(c)
+
+
+def _ci(case, name):
+    return NAMES.i(name) if case.get('_cnames') == 'p' else CNAMES.i(name)
+
+
 def _cvotes(case):
-    return {CNAMES.n(c): {NAMES.n(i): _num(s) for i, s in vs} for c, vs in case['cvotes']}
+    return {_cn(case, c): {NAMES.n(i): _num(s) for i, s in vs} for c, vs in case['cvotes']}
 
 
 def _cprev(case):
-    return {CNAMES.n(c): _seats(ps) for c, ps in case['cprev']}
+    return {_cn(case, c): _seats(ps) for c, ps in case['cprev']}
 
 
 def _flat_calc(case, capped=True):
@@ -146,7 +161,7 @@ def _cty_calc(case):
     import votelib.evaluate.core as vc
     ev = _ev(case['evaluator'])
     capp = case.get('capp', 'fixed')
-    apportioner = {CNAMES.n(c): k for c, k in case['app']} if capp == 'fixed' else _ev(capp)
+    apportioner = {_cn(case, c): k for c, k in case['app']} if capp == 'fixed' else _ev(capp)
     cev = vc.ByConstituency(ev, apportioner=apportioner)
     if case.get('overall', 'given') == 'given':
         return vc.LevelOverhangByConstituency(cev, overall_evaluator=_Capped(_ev(case['evaluator']), 1 + case['fuel']))
@@ -155,12 +170,12 @@ def _cty_calc(case):
     return vc.LevelOverhangByConstituency(_Capped(cev, 2 + case['fuel']))
 
 
-def _enc_nested(res):
+def _enc_nested(res, case=None):
     """{constituency | Tie: {party | Tie: seats}} -> sorted [[ckey, [[pkey, seats], ...]], ...]"""
     import votelib.evaluate.core as vcore
     out = []
     for c, d in res.items():
-        ck = {'tie': sorted(CNAMES.i(x) for x in c)} if isinstance(c, vcore.Tie) else CNAMES.i(c)
+        ck = {'tie': sorted(_ci(case or {}, x) for x in c)} if isinstance(c, vcore.Tie) else _ci(case or {}, c)
         out.append([ck, enc_distribution(d, NAMES)])
     out.sort(key=lambda p: json.dumps(p[0], sort_keys=True))
     return out
@@ -191,9 +206,9 @@ def impl(case):
         asc = vc.AdjustedSeatCount(_cty_calc(case), vc.ByParty(_ev(case['final']), allocator=_ev(case['alloc'])))
         if case['wrap'] == 'multistage':
             ms = vc.MultistageDistributor([_Mock(cprev), asc], depth=2)
-            res = guarded(lambda: _enc_nested(ms.evaluate(cvotes, n)))
+            res = guarded(lambda: _enc_nested(ms.evaluate(cvotes, n), case))
         else:
-            res = guarded(lambda: _enc_nested(asc.evaluate(cvotes, n, prev_gains=cprev)))
+            res = guarded(lambda: _enc_nested(asc.evaluate(cvotes, n, prev_gains=cprev), case))
         return {'adj': adj, 'result': res}
     if case['op'] == 'adjusted_eval':
         votes, prev, caps = _votes(case), _seats(case['prev']), _seats(case['max'])
@@ -345,7 +360,7 @@ def _cty_results(case, cvotes, h):
     their vote totals, a constituency that is not an individual key of the apportionment gets no seats)"""
     capp = case.get('capp', 'fixed')
     if capp == 'fixed':
-        app = {CNAMES.n(c): k for c, k in case['app']}
+        app = {_cn(case, c): k for c, k in case['app']}
     else:
         ev = _ev(capp)
         ctot = {c: sum(dv.values()) for c, dv in cvotes.items()}
@@ -527,7 +542,13 @@ def oracle(case, obs):
     if case['kind'] == 'level' and case['final'] == case['evaluator'] and info.get('drop') == 0 and not out:
         try:
             full = _bb(case['final'], votes, n + adj)
-            if {k: s for k, s in totals.items() if s} != {k: s for k, s in full.items() if s}:
+            # a "proportional distribution" among parties nobody voted for is a tie artefact (all quotients are 0; whether
+            # two of them are seated in one batch or reported as a Tie depends on where the run starts): the clause is
+            # stated for seat holders with votes
+            vid = {i: Fraction(s_) for i, s_ in case['votes']}
+            holders = [k for k in list(full) + list(totals) if not isinstance(k, tuple)]
+            zero_holder = any(vid.get(k, 0) == 0 and (full.get(k, 0) or totals.get(k, 0)) for k in holders)
+            if not zero_holder and {k: s for k, s in totals.items() if s} != {k: s for k, s in full.items() if s}:
                 out.append(('final_not_proportional', f'totals {totals}, proportional distribution of {n + adj} seats {full}'))
         except _Refused as x:
             out.append(('final_not_proportional', f'proportional evaluator refuses {n + adj} seats: {x.name}'))
@@ -647,7 +668,7 @@ def _flat_case(rng, op=None, kind=None, ev=None, vkind=None, dmode=None, n=None,
     return c
 
 
-def _cty_case(rng, ev=None, op=None, wrap=None, overall=None):
+def _cty_case(rng, ev=None, op=None, wrap=None, overall=None, clash=None):
     m = rng.randint(2, 5)
     nc = rng.randint(2, 3)
     ev = ev or rng.choice(EVALS)
@@ -679,6 +700,17 @@ def _cty_case(rng, ev=None, op=None, wrap=None, overall=None):
         c['_tags'].append('default_overall')
     if capp != 'fixed':
         c['_tags'].append('apportioned')
+    # name clash between key kinds: a constituency that is the same object as a party
+    if clash is None:
+        r = rng.random()
+        clash = 'str' if r < 0.20 else 'int0' if r < 0.30 else 'empty0' if r < 0.36 else 'no'
+    if clash == 'str':
+        c['_cnames'] = 'p'                       # constituencies 'p0', 'p1', … next to parties 'p0', 'p1', …
+    elif clash in ('int0', 'empty0'):
+        c['_names'] = clash                      # common.Names: ids are the ints themselves / id 0 is ''
+        c['_tags'].append('names:' + clash)
+    if clash != 'no':
+        c['_tags'] += ['cty_party_name_clash', 'clash_' + clash]
     if c['op'] == 'adjusted_eval':
         c['final'] = ev
         # the allocator distributes a party's seats over the constituencies; with LargestRemainder it divides by zero on
@@ -838,6 +870,16 @@ def generate(rng, tier):
             cases.append(_cty_case(rng, ev=ev))
             cases.append(_cty_case(rng, ev=ev, op='adjusted_eval', wrap='multistage', overall='given'))
             cases.append(_cty_case(rng, ev=ev, overall='none'))
+            cases.append(_cty_case(rng, ev=ev, op='adjusted_eval', wrap=rng.choice(['none', 'multistage']), overall='given',
+                                   clash=rng.choice(['str', 'int0', 'empty0'])))
+    for ev in EVALS:          # nobody has any vote: all ties under highest averages, refusal (non-positive quota) under LR
+        for kind in ('allow', 'level'):
+            c0 = {'op': rng.choice(['overhang_calc', 'adjusted_eval']), 'kind': kind, 'evaluator': ev,
+                  'votes': [[i, '0'] for i in range(3)], 'n': rng.randint(1, 5), 'prev': [[0, 1]], 'max': [],
+                  'fuel': FUEL, '_tags': [kind, ev, 'all_zero_votes']}
+            if c0['op'] == 'adjusted_eval':
+                c0['final'], c0['wrap'] = ev, 'none'
+            cases.append(c0)
     cases += _directed_intermediate_tie(rng, 30 if tier == 'quick' else 300)
     cases += _directed_alabama(rng, 30 if tier == 'quick' else 300)
     if tier == 'thorough':
@@ -893,7 +935,7 @@ def describe(case):
     evs = {'d_hondt': "HighestAverages('d_hondt')", 'sainte_lague': "HighestAverages('sainte_lague')",
            'hare_lr': "LargestRemainder('hare')"}
     if case.get('kind') == 'level_cty':
-        app = {CNAMES.n(c): k for c, k in case['app']} if case.get('capp', 'fixed') == 'fixed' else evs[case['capp']]
+        app = {_cn(case, c): k for c, k in case['app']} if case.get('capp', 'fixed') == 'fixed' else evs[case['capp']]
         app = repr(app) if isinstance(app, dict) else app
         ov = evs[case['evaluator']] if case.get('overall', 'given') == 'given' else 'None'
         calc = (f"LevelOverhangByConstituency(ByConstituency({evs[case['evaluator']]}, apportioner={app}), "
